@@ -30,6 +30,27 @@ Theorem C09_dial_lists_both : forall w a addr pin w' y,
   step w (Dial a addr pin) = (w', Some (DialOk y)) -> lists w' a y = true /\ lists w' y a = true.
 Proof. exact result_was_listed. Qed.
 
+(** Work in flight is no part of the connection views: requests that stay inside a remote handler, started
+    anywhere in a history, leave every listing, event log and later dial result exactly as they would be
+    without them - in particular a connection closed, rejected or lost under such work is reported lost
+    like an idle one (the implementation is run with such calls pending; see DESIGN 11.6, C09-e). *)
+Definition is_call (o : nop) : bool := match o with Call _ _ => true | _ => false end.
+
+Theorem C09_calls_in_flight_do_not_affect_views : forall ops w,
+  run w ops = run w (filter (fun o => negb (is_call o)) ops).
+Proof.
+  induction ops as [|o t IH]; intros w; [reflexivity|].
+  unfold run in *. cbn [fold_left filter].
+  destruct o; cbn [is_call negb fold_left]; try apply IH.
+Qed.
+
+Example C09_calls_ex :
+  let n := mkNode 1 None None [] [] [] in
+  let w0 := mkWorld [(1, n); (2, n); (3, n)] [] in
+  run w0 [Dial 1 2 None; Call 1 2; Call 2 1; Disconnect 1 2; Quiesce] = run w0 [Dial 1 2 None; Disconnect 1 2; Quiesce]
+  /\ lists (run w0 [Dial 1 2 None; Call 2 1; Disconnect 1 2]) 2 1 = false.
+Proof. vm_compute. split; reflexivity. Qed.
+
 Example C09_ex :
   let n := mkNode 1 None None [] [] [] in
   let w0 := mkWorld [(1, n); (2, n); (3, n)] [] in
@@ -44,3 +65,4 @@ Print Assumptions C09_mutual_at_quiescence.
 Print Assumptions C09_disconnect_immediate.
 Print Assumptions C09_disconnect_propagates.
 Print Assumptions C09_dial_lists_both.
+Print Assumptions C09_calls_in_flight_do_not_affect_views.
